@@ -332,6 +332,11 @@ DynGraphs == {
            St1(2, <<"st">>, <<"s2">>, <<>>),
            [St1(3, <<"o3">>, <<"s2">>, <<"st", "dd">>) EXCEPT !.dd = "dd", !.ddi = <<"o4">>],
            St1(4, <<"o4">>, <<"s1">>, <<>>) >>),
+  \* the dyndep file reports as implicit input a file that the statement already lists as order-only input
+  Graph(<< [St1(1, <<"dd">>, <<"s1">>, <<>>) EXCEPT !.mkdd = "dd"],
+           St1(2, <<"o2">>, <<"s2">>, <<>>),
+           [St1(3, <<"o3">>, <<"s1">>, <<"dd", "o2">>) EXCEPT !.dd = "dd", !.ddi = <<"o2">>] >>),
+  Graph(<< [St1(1, <<"o1">>, <<"s1">>, <<"dd", "s2">>) EXCEPT !.dd = "dd", !.ddi = <<"s2">>] >>),
   \* dyndep file as implicit input, discovered output and input at once, consumer chain
   Graph(<< [St1(1, <<"dd">>, <<"s1">>, <<>>) EXCEPT !.mkdd = "dd"],
            [St1(2, <<"o2">>, <<"s2">>, <<"dd">>) EXCEPT !.dd = "dd", !.ddi = <<"s1">>, !.ddo = <<"x2">>],
